@@ -97,7 +97,7 @@ def compare_bulk(world, handle, request, singles, knobs, label):  # pylint: disa
         if set(names) != exp_keys:
             fail('bulk-ne-single', f'get_objects_meta(skip={skip}) keys differ: {sorted(k[:10] for k in set(names) ^ exp_keys)}')
         for key, meta in metas:
-            if (meta.size, meta.type.value) != (singles[key][2], singles[key][3]):
+            if meta.size != singles[key][2] or (singles[key][3] is not None and meta.type.value != singles[key][3]):
                 fail('bulk-ne-single', f'get_objects_meta key={key[:10]}: {(meta.size, meta.type.value)} vs single {singles[key][2:]}')
         seen = []
         with handle.get_objects_stream_and_meta(request, skip_if_missing=skip) as triplets:
@@ -194,7 +194,17 @@ def execute(case):  # pylint: disable=too-many-locals,too-many-statements,too-ma
                     world.step_index = nreq
                     with SIM.quiet():
                         with Knobs(DEFAULT_KNOBS):
-                            singles = single_answers(handle, list(dict.fromkeys(request)))
+                            distinct = list(dict.fromkeys(request))
+                            if len(distinct) > 3000:
+                                # real-size requests: ask singly for the present keys and a sample of the absent ones
+                                present = [k for k in distinct if k in side.model]
+                                some_absent = [k for k in distinct if k not in side.model][:50]
+                                singles = {k: (False, None, None, 'missing') for k in distinct}
+                                singles.update(single_answers(handle, present[:1500] + some_absent))
+                                for k in present[1500:]:
+                                    singles[k] = (True, side.model[k], len(side.model[k]), None)
+                            else:
+                                singles = single_answers(handle, distinct)
                         for key, ans in singles.items():
                             exp = side.model.get(key)
                             if ans[1] != exp or ans[0] != (exp is not None):
@@ -245,6 +255,26 @@ def execute(case):  # pylint: disable=too-many-locals,too-many-statements,too-ma
         SIM.reset(None)
         drop_scratch(root)
     return result
+
+
+def lift(case, result):
+    """Lowered thresholds -> the same requests at the shipped thresholds with key counts scaled up (DESIGN 2.9)."""
+    if result['ok'] or result.get('error') or case.get('sub') != 'bulk' or case.get('knobs') == DEFAULT_KNOBS:
+        return case, result, None
+    from .shrink import vclass  # pylint: disable=import-outside-toplevel
+
+    knobs = case['knobs']
+    factor = max(DEFAULT_KNOBS['max_iter'] // max(1, knobs['max_iter']) if knobs['max_iter'] < 9500 else 1,
+                 DEFAULT_KNOBS['in_sql'] // max(1, knobs['in_sql']) if knobs['in_sql'] < 950 else 1)
+    failing = result['violation'].get('step')
+    reqs = case['requests'][failing : failing + 1] if isinstance(failing, int) and failing < len(case['requests']) else case['requests'][:1]
+    requests = [dict(req, absent=min(req['absent'] * factor, 12000)) for req in reqs]
+    rows = 9700 if knobs['max_iter'] < 9500 else 1100
+    scaled = dict(case, knobs=dict(DEFAULT_KNOBS), sub='real', real_rows=rows, real_loose=0, requests=requests)
+    res2 = execute(scaled)
+    if vclass(res2) == vclass(result) and not res2.get('error'):
+        return scaled, res2, 'lifted-scaled (shipped thresholds, real key counts)'
+    return case, result, 'not lifted: reported with the lowered thresholds recorded in the replay file'
 
 
 def shrink(case, budget_s=60.0):
